@@ -32,6 +32,25 @@ Theorem C11_back name s : canon s -> simp_ok s -> Forall tilde_safe (ranges_of s
   end.
 Proof. exact (back_sound name s). Qed.
 
+(* _merge_single_markers on two atoms of ONE version-like variable (the specifier view of both, & or |, == tests, from_specifier):
+   whatever it returns - the first atom, the second, a new atom, the universal / empty marker - evaluates on every final version as
+   the conjunction / disjunction of the two atoms.  This discharges, in the tokenised world, the hypothesis vmerge_sound of the marker
+   theorems (C02 ...) for same-variable merges; the python_version / python_full_version pair branch is not modelled. *)
+Theorem C11_merge kind name c1 c2 res : wf_clause c1 -> wf_clause c2 ->
+  vmerge_same kind name c1 c2 = Ret res ->
+  (forall s1 s2 rs, get_specifier c1 = Ret s1 -> get_specifier c2 = Ret s2 ->
+     (if kind then spec_and s1 s2 else spec_or s1 s2) = Ret rs -> Forall tilde_safe (ranges_of rs)) ->
+  forall v, final v ->
+  match res with
+  | VMFirst => clause_sem c1 v = bopb kind (clause_sem c1 v) (clause_sem c2 v)
+  | VMSecond => clause_sem c2 v = bopb kind (clause_sem c1 v) (clause_sem c2 v)
+  | VMAny => bopb kind (clause_sem c1 v) (clause_sem c2 v) = true
+  | VMEmpty => bopb kind (clause_sem c1 v) (clause_sem c2 v) = false
+  | VMAtom k => atom_sem k v = bopb kind (clause_sem c1 v) (clause_sem c2 v)
+  | VMNone => True
+  end.
+Proof. exact (vmerge_same_sound kind name c1 c2 res). Qed.
+
 Theorem C11_padding k v : clause_sem (pad_pfv k) v = clause_sem k v.
 Proof. exact (pad_pfv_sem k v). Qed.
 
@@ -43,5 +62,5 @@ Example C11_runs :
             /\ spec_contains s (relver 0 [3; 9; 0]%N) = Ret true /\ spec_contains s (relver 0 [3; 8; 5]%N) = Ret false.
 Proof. eexists. repeat split; vm_compute; reflexivity. Qed.
 
-Definition C11_all := (C11_view, C11_back, C11_padding).
+Definition C11_all := (C11_view, C11_back, C11_padding, C11_merge).
 Redirect "C11.assumptions" Print Assumptions C11_all.
